@@ -98,13 +98,91 @@ let diagnose (tr : event list) : string list =
       in
       [ why; Printf.sprintf "at-event-%d" (List.length s); (match s with e :: _ -> string_of_event e | [] -> "-") ]
 
+(* ---- stress traces: search for a model schedule that produces the logged trace ----
+   The log fixes the order of the commands (with the answers of the queries) and of the thread's
+   events (init, step k, rc b; "final5"/"exit" = schedule points 5/6 around the final store).  The
+   thread's silent moves (flag accesses, lock, wake-up, the final store itself), the second half of
+   reboot() and spurious wake-ups may fall anywhere in between.  Depth-first search over
+   (position in the log, model configuration up to its trace) with a visited table.  A schedule
+   that is found is replayed through the extracted run_moves and its trace compared with the log
+   (so a positive answer does not rely on this search code). *)
+type item = IThr of event | IF5 | IX6 | ICmd of cmd | IQ of event | IIgnore
+
+let item_of_string s =
+  match s with
+  | "final5" -> IF5 | "exit" -> IX6
+  | "run" -> ICmd Run | "reset" -> ICmd Reset | "reboot" -> ICmd Reboot | "teardown" -> ICmd Teardown | "wait" -> ICmd Wait
+  | _ -> (
+      match event_of_string s with
+      | Some ((EQRun _ | EQStep _) as e) -> IQ e
+      | Some ((EInit | EStep _ | ERc _) as e) -> IThr e
+      | _ -> IIgnore)
+
+let key c = (c.c_pc, c.c_run, c.c_rst, c.c_td, int_of_nat c.c_step, c.c_woken, c.c_mid)
+
+let emits_logged (p : pc) = match p with PInit | PStep | PC1a | PC2a -> true | _ -> false
+
+let explain (ws : string list) : (move list option) * int =
+  let items = Array.of_list (List.filter (fun i -> i <> IIgnore) (List.map item_of_string ws)) in
+  let n = Array.length items in
+  let visited = Hashtbl.create 4096 in
+  let furthest = ref 0 in
+  let head c = match c.c_trace with e :: _ -> Some e | [] -> None in
+  let rec go i c (acc : move list) : move list option =
+    if i > !furthest then furthest := i;
+    if i = n then Some (List.rev acc)
+    else if Hashtbl.mem visited (i, key c) then None
+    else begin
+      Hashtbl.add visited (i, key c) ();
+      let try_move m k = match step c m with Some c' -> k c' | None -> None in
+      let first_some l = List.fold_left (fun r f -> match r with Some _ -> r | None -> f ()) None l in
+      first_some
+        [ (* consume the next log item *)
+          (fun () ->
+            match items.(i) with
+            | IThr e ->
+                let b = (match e with ERc b -> b | _ -> true) in
+                if emits_logged c.c_pc then
+                  try_move (MThread b) (fun c' -> if head c' = Some e then go (i + 1) c' (MThread b :: acc) else None)
+                else None
+            | IF5 -> if c.c_pc = PFinal then go (i + 1) c acc else None
+            | IX6 -> if c.c_pc = PDone || c.c_pc = PExited then go (i + 1) c acc else None
+            | ICmd k -> if c.c_mid then None else try_move (MCmd k) (fun c' -> go (i + 1) c' (MCmd k :: acc))
+            | IQ e ->
+                if c.c_mid then None
+                else
+                  let k = (match e with EQRun _ -> IsRunning | _ -> StepNumber) in
+                  try_move (MCmd k) (fun c' -> if head c' = Some e then go (i + 1) c' (MCmd k :: acc) else None)
+            | IIgnore -> go (i + 1) c acc);
+          (* second half of reboot() *)
+          (fun () -> if c.c_mid then try_move MRebootEnd (fun c' -> go i c' (MRebootEnd :: acc)) else None);
+          (* a silent move of the thread *)
+          (fun () -> if emits_logged c.c_pc then None else try_move (MThread false) (fun c' -> go i c' (MThread false :: acc)));
+          (* a spurious wake-up *)
+          (fun () -> if c.c_pc = PSleep && not c.c_woken then try_move MSpurious (fun c' -> go i c' (MSpurious :: acc)) else None) ]
+    end
+  in
+  let r = go 0 init [] in
+  (r, !furthest)
+
+(* replay of a found schedule through the extracted run_moves; traces compared up to the position of the exit marker *)
+let certify (ws : string list) (ms : move list) : bool =
+  match run_moves init ms with
+  | None -> false
+  | Some c ->
+      let strip_model = List.filter (fun e -> e <> EExit) (List.rev c.c_trace) in
+      let logged = List.filter_map (fun s -> if s = "exit" || s = "final5" then None else event_of_string s) ws in
+      let model_exit = List.mem EExit c.c_trace and log_exit = List.mem "exit" ws in
+      strip_model = logged && model_exit = log_exit
+
 let run_cases impl =
   let cases = Caseio.read_records "case" stdin in
   List.iter
     (fun (c : Caseio.case) ->
       Caseio.out_begin c.id;
       (if c.kind = "word" then begin
-         let w = List.map tok_of_string (if Caseio.has c "w" then Caseio.get_word c "w" else []) in
+         let pre = (if Caseio.has c "pre" then Caseio.get_word c "pre" else []) in
+         let w = List.map tok_of_string (pre @ (if Caseio.has c "w" then Caseio.get_word c "w" else [])) in
          let observations = ref [ obs init ] in
          let cfg =
            List.fold_left
@@ -131,7 +209,20 @@ let run_cases impl =
                  let evs = List.filter_map event_of_string (normalise_stress (Caseio.get_word r "trace")) in
                  let tr = List.rev evs in
                  Caseio.out_int "impl_good" (b2i (all_good tr));
-                 Caseio.out_word "impl_bad" (diagnose tr)
+                 Caseio.out_word "impl_bad" (diagnose tr);
+                 if c.kind = "stress" then begin
+                   let ws = Caseio.get_word r "trace" in
+                   match explain ws with
+                   | Some ms, _ ->
+                       Caseio.out_int "explained" 1;
+                       Caseio.out_int "certified" (b2i (certify ws ms));
+                       Caseio.out_int "schedule_moves" (List.length ms)
+                   | None, far ->
+                       Caseio.out_int "explained" 0;
+                       let items = List.filter (fun s -> item_of_string s <> IIgnore) ws in
+                       Caseio.out_word "unexplained_at"
+                         [ string_of_int far; (try List.nth items far with _ -> "end") ]
+                 end
                end));
       Caseio.out_end ())
     cases
